@@ -259,6 +259,8 @@ def run(ctx):
             "perm": DaughtersDict(perm),
             "tuple": DaughtersDict(tuple(perm)),
             "string": DaughtersDict(sep.join(ds)) if ds else DaughtersDict(""),
+            # blanks around the names (a line read from a file, an indented string): separators, never names
+            "padded-string": DaughtersDict(rng.choice(["", " ", "\t", "  "]) + sep.join(ds) + rng.choice(["\n", " ", "", " \n", "\t "])),
             "counts": DaughtersDict(cd),
         }
         want = sorted(ds)
